@@ -26,8 +26,8 @@ STORES = {"cache": "local", "remote": "generic"}
 # --------------------------------------------------------------------------------------
 # executing operation-level cases on the real code
 # --------------------------------------------------------------------------------------
-def _his(w: World, ids, name="md5", named=False):
-    his = [w.uni.hash_info(x, name) for x in ids]
+def _his(w: World, ids, name=None, named=False):
+    his = [w.uni.hash_info(x, name or w.alg) for x in ids]
     if named:
         # the caller's ids carry display names (what dvc passes: obj_name is for messages, it identifies nothing)
         from dvc_data.hashfile.hash_info import HashInfo
@@ -100,15 +100,15 @@ def _index_push(w: World, op: dict, src_odb, dst_odb, on_status):
     listed = {f for d in op["req"] if d in w.uni.dirs for f in w.uni.dirs[d]}
     for x in sorted(op["req"]):
         if x in w.uni.dirs:
-            idx[(x,)] = DataIndexEntry(key=(x,), meta=Meta(isdir=True), hash_info=w.uni.hash_info(x, "md5"))
+            idx[(x,)] = DataIndexEntry(key=(x,), meta=Meta(isdir=True), hash_info=w.uni.hash_info(x, w.alg))
             if op.get("entries") == "explicit":
                 # (an index that was loaded before - as the one dvc builds from its lock files - lists the files itself)
                 for rel, f in w.uni.relpaths[x].items():
                     key = (x, *rel.split("/"))
-                    idx[key] = DataIndexEntry(key=key, meta=Meta(), hash_info=w.uni.hash_info(f, "md5"))
+                    idx[key] = DataIndexEntry(key=key, meta=Meta(), hash_info=w.uni.hash_info(f, w.alg))
                 idx[(x,)].loaded = True
         elif x not in listed:
-            idx[(x,)] = DataIndexEntry(key=(x,), meta=Meta(), hash_info=w.uni.hash_info(x, "md5"))
+            idx[(x,)] = DataIndexEntry(key=(x,), meta=Meta(), hash_info=w.uni.hash_info(x, w.alg))
     fetching = op["src"] != "cache"      # the cache is the index's cache storage, the other store its data storage
     if fetching:
         import dvc_data.index.fetch as ipush  # noqa: F811 - same shape: fetch([idx]) calls the module's `transfer`
@@ -148,7 +148,7 @@ def op_add(w: World, op: dict):
     from dvc_data.hashfile.transfer import transfer
 
     odb = w.odb(op["s"])
-    staging, _meta, obj = build(odb, w.ws_path(op["x"]), LocalFileSystem(), "md5")
+    staging, _meta, obj = build(odb, w.ws_path(op["x"]), LocalFileSystem(), w.alg)
     res = transfer(staging, odb, {obj.hash_info}, shallow=False, hardlink=False)
     w.emit({"op": "AddObj", "s": op["s"], "x": op["x"]}, {"op": "add", "new": w.ids(res.transferred)})
 
@@ -169,7 +169,7 @@ def op_addmany(w: World, op: dict):
     lfs, mfs = LocalFileSystem(), MemoryFileSystem()
     tag = uuid.uuid4().hex[:12]
     mroot = f"/verif-ws-{tag}"
-    merged = ReferenceHashFileDB(MemoryFileSystem(), f"memory://verif-staging-{tag}", hash_name="md5")
+    merged = ReferenceHashFileDB(MemoryFileSystem(), f"memory://verif-staging-{tag}", hash_name=w.alg)
     xs = list(op["xs"])   # staged in the order given
     act = {"op": "AddMany", "s": op["s"], "xs": sorted(xs)}
     ids = set()
@@ -181,7 +181,7 @@ def op_addmany(w: World, op: dict):
                     fs = mfs
                     path = f"{mroot}/{x}"
                     mfs.fs.put(w.ws_path(x), path, recursive=os.path.isdir(w.ws_path(x)))
-                staging, _meta, obj = build(odb, path, fs, "md5")
+                staging, _meta, obj = build(odb, path, fs, w.alg)
                 for oid, o in staging._obj_cache.items():
                     merged.add(o.path, o.fs, oid)
                 ids.add(obj.hash_info)
@@ -246,7 +246,7 @@ def op_gc(w: World, op: dict):
     ord_ = op.get("ord", "used-first")
     # the foreign ids carry the very same values under another algorithm name (as the legacy md5-dos2unix ids of binary
     # files do next to their md5 ids)
-    foreign = _his(w, op.get("foreign", []), name=("md5-dos2unix", "sha256")[len(op["used"]) % 2])
+    foreign = _his(w, op.get("foreign", []), name=("md5-dos2unix" if w.alg == "md5" else "md5", "sha256")[len(op["used"]) % 2])
     used = foreign + _his(w, op["used"]) if ord_ == "foreign-first" else _his(w, op["used"]) + foreign
     cs, cro = op.get("cs", op["s"]), bool(op.get("cro", False))
     cache_odb = w.odb(cs, read_only=cro) if cs != op["s"] else None
@@ -287,8 +287,10 @@ def run_case(case: dict, seed: int) -> dict:
     logging.disable(logging.CRITICAL)
     root = fresh_root("os-")
     try:
-        uni = Universe(FILES, DIRS, seed=seed + case.get("useed", 0), pads=case.get("pads", 0))
+        alg = case.get("alg", "md5")
+        uni = Universe(FILES, DIRS, seed=seed + case.get("useed", 0), pads=case.get("pads", 0), no_crlf=alg != "md5")
         w = World(root, uni, STORES, idx_store="remote")
+        w.alg = alg
         init = {s: {x: st for x, st in objs.items() if st != "none"} for s, objs in case["init"].items()}
         w.setup(init)
         w.fault_kind = case.get("fk", 0)
@@ -464,12 +466,14 @@ def transfer_cases(gen: dict, rng: random.Random, quick: bool) -> list[dict]:
             first = xfer_op(c, named=named)
             retry = xfer_op(c, F=[], named=named)
             useed = len(cases) % 3  # vary the concrete contents, hence the code's own iteration orders
-            cases.append({"init": c["init"], "ops": [first, retry], "kind": kind, "useed": useed})
+            # every fifth case runs on stores of the legacy algorithm (both sides, as a DVC 2.x cache and remote are)
+            alg = "md5-dos2unix" if len(cases) % 5 == 3 else "md5"
+            cases.append({"init": c["init"], "ops": [first, retry], "kind": kind, "useed": useed, "alg": alg})
             nmax = len(c["req"]) + 2
             ks = range(nmax) if (not quick or rng.random() < 0.34) else []
             for k in ks:
                 cases.append({"init": c["init"], "ops": [xfer_op(c, abort=k, named=named), retry], "kind": kind + "-abort",
-                              "useed": useed})
+                              "useed": useed, "alg": alg})
     return cases
 
 
